@@ -256,7 +256,7 @@ func init() {
 					return
 				}
 				cl, f := parseRes(res)
-				if strings.HasPrefix(cl, "err") && f["str"] != "" && f["str"] != "-" && f["str"] != "" {
+				if strings.HasPrefix(cl, "err") && f["str"] != "" && f["str"] != "-" {
 					viol = append(viol, what+": error together with non-empty text")
 				}
 				if strings.HasPrefix(f["res2"], "PANIC") {
